@@ -75,10 +75,18 @@ func (c *Ctx) analyseBuf(rule string, fn *ssa.Function, pi int, regionIn region,
 				} else if f := call.Call.StaticCallee(); f != nil && appendOnly[origin(f).String()] {
 					appendLike = true
 				}
+				dst := call.Call.Args[0]
+				if f := c.StaticCallee(&call.Call); !appendLike && f != nil && inRepo(f) && reg[call] != rNone {
+					// an appending helper of the module handed the spare capacity (appendDigits(buf[len(buf):], v))
+					for _, a := range call.Call.Args {
+						if reg[a] != rNone {
+							dst, appendLike = a, true
+						}
+					}
+				}
 				if !appendLike {
 					continue
 				}
-				dst := call.Call.Args[0]
 				switch reg[dst] {
 				case rSuffix:
 					if sl, ok := dst.(*ssa.Slice); ok && sl.X == ssa.Value(fn.Params[pi]) {
@@ -219,6 +227,16 @@ func (c *Ctx) forkedAppends(rule string, fn *ssa.Function, reg map[ssa.Value]reg
 			}
 			if dst := call.Call.Args[0]; appendLike && reg[dst] != rNone && reg[dst] != rBuffer {
 				byDst[dst] = append(byDst[dst], call)
+			}
+			// an appending helper of the module (its result is built on the slice it was handed): a chain member too
+			if f := c.StaticCallee(&call.Call); !appendLike && f != nil && inRepo(f) && reg[call] != rNone && reg[call] != rBuffer {
+				if _, isSlice := call.Type().Underlying().(*types.Slice); isSlice {
+					for _, a := range call.Call.Args {
+						if reg[a] != rNone && reg[a] != rBuffer {
+							byDst[a] = append(byDst[a], call)
+						}
+					}
+				}
 			}
 		}
 	}
@@ -461,32 +479,36 @@ func (c *Ctx) RuleBufIndependentAt(fn *ssa.Function, pi int) {
 func (c *Ctx) RuleInputReadOnly(fns ...*ssa.Function) {
 	for _, fn := range fns {
 		before := len(c.Out)
-		// the input is the first byte-sequence parameter (for a method: not the receiver)
-		pi := -1
+		// the inputs are the byte-sequence parameters (for a method: not the receiver) — all of them: the compare helpers
+		// take two texts
+		var pis []int
 		for i, p := range fn.Params {
 			if fn.Signature.Recv() != nil && i == 0 {
 				continue
 			}
+			isInput := false
 			switch t := p.Type().Underlying().(type) {
 			case *types.Slice, *types.Interface:
-				pi = i
+				isInput = true
 			case *types.Basic:
 				if t.Info()&types.IsString != 0 {
-					pi = i
+					isInput = true
 				}
 			}
 			if _, isTP := p.Type().(*types.TypeParam); isTP {
-				pi = i
+				isInput = true
 			}
-			if pi >= 0 {
-				break
+			if isInput {
+				pis = append(pis, i)
 			}
 		}
-		if pi < 0 {
+		if len(pis) == 0 {
 			c.add("undecided", "C17.ro", fn, fn.Pos(), "no byte-sequence parameter found")
 			continue
 		}
-		c.inputRO(fn, pi, 0, map[*ssa.Function]bool{})
+		for _, pi := range pis {
+			c.inputRO(fn, pi, 0, map[*ssa.Function]bool{})
+		}
 		if len(c.Out) == before {
 			c.add("discharged", "C17.ro", fn, fn.Pos(), "no write through an alias of the input")
 		}
@@ -567,7 +589,10 @@ func (c *Ctx) inputROFrom(fn *ssa.Function, roots map[ssa.Value]bool, depth int,
 	if depth > 5 || seen[fn] {
 		return
 	}
+	// on the stack only (recursion guard): the same helper is visited again when another of its parameters carries the
+	// alias (comparePreRelease(b, a) and comparePreRelease(a, b))
 	seen[fn] = true
+	defer delete(seen, fn)
 	alias := map[ssa.Value]bool{}
 	for r := range roots {
 		alias[r] = true
@@ -633,6 +658,16 @@ func (c *Ctx) inputROFrom(fn *ssa.Function, roots map[ssa.Value]bool, depth int,
 				case *ssa.UnOp:
 					if x.Op == token.MUL && alias[x.X] {
 						mark(x)
+					}
+				case *ssa.TypeAssert: // src.([]byte) of an interface-typed input (Scan): the caller's bytes
+					if alias[x.X] {
+						mark(x)
+					}
+				case *ssa.Extract:
+					if ta, ok := x.Tuple.(*ssa.TypeAssert); ok && alias[ta] && x.Index == 0 {
+						if _, isSlice := x.Type().Underlying().(*types.Slice); isSlice {
+							mark(x)
+						}
 					}
 				case *ssa.Store:
 					// a local variable that lives in a cell (captured by a closure, or address taken): the cell then
